@@ -94,6 +94,8 @@ def as_iterable(items, how):
 def break_annotations(arr, how):
     """Make arr's annotations differ from its siblings': one value, one category more, or one category fewer."""
     opt = [c for c in arr.get_annotation_categories() if c not in MANDATORY]
+    if arr.array_length() == 0 and not (how == "del_cat" and opt):
+        how = "add_cat"  # no atom whose value could be changed: the set of categories is what can differ
     if how == "add_cat":
         arr.add_annotation("uid2", dtype=int)
     elif how == "del_cat" and opt:
@@ -360,8 +362,8 @@ def m_apply(ms, op):
             return None
         coords = [np.array(c, dtype=np.float32).reshape(src.n, 3) for c in op["coords"]]
         boxes = op["boxes"]
-        if op.get("break_annot") is not None and src.n > 0:
-            raise Reject(("ValueError",))
+        if op.get("break_annot") is not None:
+            raise Reject(("ValueError",))  # also for arrays without atoms: their annotation categories differ
         box = None
         if all(b is not None for b in boxes):
             box = boxes
@@ -1184,7 +1186,7 @@ class Sim:
                     a = src.copy()
                     a.coord = np.array(c, dtype=np.float32).reshape(src.array_length(), 3)
                     a.box = None if op["boxes"][k] is None else np.array(op["boxes"][k], dtype=np.float32)
-                    if op.get("break_annot") == k and a.array_length() > 0:
+                    if op.get("break_annot") == k:
                         break_annotations(a, op.get("break_how"))
                     arrays.append(a)
                 return {op["dst"]: struc.stack(as_iterable(arrays, op.get("as")))}, None
